@@ -90,7 +90,7 @@ def _get_adj_contract(qname, which, field_fn, other_fn):
             which + ".existing_entry_returned": z3.Implies(present, c.res == c.pre.d_val(Adj, d, node)),
             which + ".missing_entry_is_fresh_empty": z3.Implies(z3.Not(present), z3.And(c.res >= c.alloc0, c.post.c_len(TaskList, c.res) == 0)),
             which + ".others_untouched": z3.ForAll(
-                [x], z3.Implies(x != node, z3.And(c.post.d_dom(Adj, d, x) == c.pre.d_dom(Adj, d, x), c.post.d_val(Adj, d, x) == c.pre.d_val(Adj, d, x))), patterns=[c.post.d_dom(Adj, d, x)]
+                [x], z3.Implies(x != node, z3.And(c.post.d_dom(Adj, d, x) == c.pre.d_dom(Adj, d, x), c.post.d_val(Adj, d, x) == c.pre.d_val(Adj, d, x))), patterns=[c.post.d_dom(Adj, d, x), c.post.d_val(Adj, d, x), c.pre.d_dom(Adj, d, x)]
             ),
         }
 
@@ -118,6 +118,11 @@ Contract(
 )
 
 
+def _entries_kept(c, pg):
+    x = z3.Int(H.fresh_name("ek_x"))
+    return z3.ForAll([x], z3.Implies(c.pre.d_dom(Adj, pg, x), z3.And(c.post.d_dom(Adj, pg, x), c.post.d_val(Adj, pg, x) == c.pre.d_val(Adj, pg, x))), patterns=[c.post.d_dom(Adj, pg, x), c.post.d_val(Adj, pg, x)])
+
+
 def _ready_ens(c):
     g, t = c.arg("task_graph"), c.arg("self")
     return {
@@ -127,6 +132,12 @@ def _ready_ens(c):
         "ready.iff_pre": c.res == ready_to_run(c.pre, g, t),
         "ready.states": z3.Implies(c.res, z3.Or(task_state(c.pre, t) == SCHEDULED, task_state(c.pre, t) == PREEMPTED)),
         "ready.task_states_untouched": task_state(c.post, t) == task_state(c.pre, t),
+        # the only heap effect is a defaultdict entry for a parentless task: existing parent entries stay as they were
+        "ready.parent_entries_kept": _entries_kept(c, g_parents(c.pre, g)),
+        "ready.new_entry_is_fresh_empty": z3.Implies(
+            z3.And(z3.Not(c.pre.d_dom(Adj, g_parents(c.pre, g), t)), c.post.d_dom(Adj, g_parents(c.pre, g), t)),
+            z3.And(c.post.d_val(Adj, g_parents(c.pre, g), t) >= c.alloc0, c.post.c_len(TaskList, c.post.d_val(Adj, g_parents(c.pre, g), t)) == 0),
+        ),
     }
 
 
@@ -188,7 +199,7 @@ def _cancel_ens(c):
     cl = lambda y: CLS(c.pre.fld_arr(TASK, "_state")[2], g, task, y)
     return z3.And(
         c.res >= c.alloc0,
-        z3.ForAll([x], c.post.l_mem(TaskList, c.res, x) == cl(x), patterns=[c.post.l_mem(TaskList, c.res, x)]),
+        z3.ForAll([x], c.post.l_mem(TaskList, c.res, x) == cl(x), patterns=[c.post.l_mem(TaskList, c.res, x), cl(x)]),
         z3.ForAll([x], z3.If(cl(x), z3.And(x > 0, x < c.alloc0, task_state(c.post, x) == CANCELLED), task_state(c.post, x) == task_state(c.pre, x)), patterns=[task_state(c.post, x), cl(x)]),
         cl(task),
     )
@@ -204,7 +215,7 @@ def n_children(h, g, t):
 
 def all_parents_complete(h, g, x):
     j = z3.Int(H.fresh_name("apc_j"))
-    return z3.ForAll([j], z3.Implies(z3.And(0 <= j, j < n_parents(h, g, x)), is_complete_state(task_state(h, parent_at(h, g, x, j)))))
+    return z3.ForAll([j], z3.Implies(z3.And(0 <= j, j < n_parents(h, g, x)), is_complete_state(task_state(h, parent_at(h, g, x, j)))), patterns=[parent_at(h, g, x, j)])
 
 
 def conditional(h, t):
@@ -252,6 +263,11 @@ def _ntc_ens(c):
         "release.only_unlocked_children": z3.Implies(
             z3.Not(cond), z3.ForAll([x], z3.Implies(c.post.l_mem(TaskList, rel, x), z3.And(is_child(x), releasable_child(c.pre, g, x))), patterns=[c.post.l_mem(TaskList, rel, x)])
         ),
+        # C18 completeness direction ("exactly those children"): every unlocked, not cancelled child is released
+        "release.every_unlocked_child": z3.Implies(
+            z3.Not(cond),
+            z3.ForAll([j], z3.Implies(z3.And(0 <= j, j < n_children(c.pre, g, t), releasable_child(c.pre, g, child_at(c.pre, g, t, j))), c.post.l_mem(TaskList, rel, child_at(c.pre, g, t, j))), patterns=[child_at(c.pre, g, t, j)]),
+        ),
         "release.nothing_cancelled_unless_conditional": z3.Implies(z3.Not(cond), c.post.c_len(TaskList, can) == 0),
         # C07: for a conditional at most one child is released, it is a child, and its weight is positive
         "cond.at_most_one": z3.Implies(cond, c.post.c_len(TaskList, rel) <= 1),
@@ -283,12 +299,25 @@ def _pg_stable(c, h):
     g = c.arg("self")
     pg = g_parents(c.pre, g)
     x = z3.Int(H.fresh_name("pgs_x"))
-    return z3.ForAll([x], z3.Implies(c.pre.d_dom(Adj, pg, x), z3.And(h.d_dom(Adj, pg, x), h.d_val(Adj, pg, x) == c.pre.d_val(Adj, pg, x))), patterns=[h.d_dom(Adj, pg, x)])
+    return z3.ForAll([x], z3.Implies(c.pre.d_dom(Adj, pg, x), z3.And(h.d_dom(Adj, pg, x), h.d_val(Adj, pg, x) == c.pre.d_val(Adj, pg, x))), patterns=[h.d_dom(Adj, pg, x), h.d_val(Adj, pg, x), c.pre.d_dom(Adj, pg, x)])
 
 
 def _ntc_loop2_inv(c, L):
     d = _ntc_loop_noncond_inv(c, L)
     d["parent_graph_stable"] = _pg_stable(c, c.post)
+    g, t = c.arg("self"), c.arg("task")
+    k = z3.Int(H.fresh_name("nl_k"))
+    ck = child_at(c.pre, g, t, k)
+    # completeness direction: every child seen so far that is unlocked has been put on the release list
+    pg = g_parents(c.pre, g)
+    x = z3.Int(H.fresh_name("nl_x2"))
+    # entries the defaultdict created during the loop hold empty lists (a task without an entry has no parents)
+    d["new_parent_entries_empty"] = z3.ForAll(
+        [x], z3.Implies(z3.And(c.post.d_dom(Adj, pg, x), z3.Not(c.pre.d_dom(Adj, pg, x))), z3.And(c.post.c_len(TaskList, c.post.d_val(Adj, pg, x)) == 0, c.post.d_val(Adj, pg, x) >= c.alloc0, c.post.d_val(Adj, pg, x) != L.var("released_tasks"))), patterns=[c.post.d_val(Adj, pg, x)]
+    )
+    d["released_every_unlocked_so_far"] = z3.ForAll(
+        [k], z3.Implies(z3.And(0 <= k, k < L.i, k < n_children(c.pre, g, t), releasable_child(c.pre, g, ck)), c.post.l_mem(TaskList, L.var("released_tasks"), ck)), patterns=[child_at(c.pre, g, t, k)]
+    )
     d.pop("children_untouched", None)
     return d
 
@@ -321,6 +350,26 @@ def _ntc_cond_loop_mod(c):
     return out
 
 
+def _parents_bridge(c, ch):
+    """the stored parent list of `ch` is the same object with the same contents as at function entry"""
+    g = c.arg("self")
+    pg = g_parents(c.pre, g)
+    p0 = c.pre.d_val(Adj, pg, ch)
+    j = z3.Int(H.fresh_name("nlb_j"))
+    h = c.post
+    return Step(
+        "parents_list_unchanged",
+        z3.Implies(
+            c.pre.d_dom(Adj, pg, ch),
+            z3.And(
+                h.d_val(Adj, pg, ch) == p0,
+                h.c_len(TaskList, p0) == c.pre.c_len(TaskList, p0),
+                z3.ForAll([j], z3.Implies(z3.And(0 <= j, j < h.c_len(TaskList, p0)), h.l_elem(TaskList, p0, j) == c.pre.l_elem(TaskList, p0, j)), patterns=[h.l_elem(TaskList, p0, j), c.pre.l_elem(TaskList, p0, j)]),
+            ),
+        ),
+    )
+
+
 def _ntc_lemmas(c, L, phase):
     if phase == "start":
         # the current child is the i-th child of the completed task (witness for the existential in the invariant)
@@ -328,9 +377,12 @@ def _ntc_lemmas(c, L, phase):
         j = z3.Int(H.fresh_name("nlm_j"))
         ch = L.var("child")
         return [Step("child_is_ith_child", z3.And(0 <= L.i, L.i < n_children(c.pre, g, t), child_at(c.pre, g, t, L.i) == ch)),
-                Step("child_is_a_child", z3.Exists([j], z3.And(0 <= j, j < n_children(c.pre, g, t), child_at(c.pre, g, t, j) == ch)))]
+                Step("child_is_a_child", z3.Exists([j], z3.And(0 <= j, j < n_children(c.pre, g, t), child_at(c.pre, g, t, j) == ch))),
+                _parents_bridge(c, ch)]
     if phase == "exit":
         return [Fact("list.mem_def", c.pre.l_mem_def(TaskList, c.pre.d_val(Adj, g_children(c.pre, c.arg("self")), c.arg("task"))))]
+    if phase == "end":
+        return [_parents_bridge(c, L.var("child"))]
     return []
 
 
@@ -365,4 +417,83 @@ Contract(
     allocates=True,
     note="may raise RuntimeError (a child already beyond SCHEDULED), ValueError (child weights do not sum to 1) or IndexError; those paths are not constrained beyond the stated ValueError condition",
     props=("C18", "C02", "C07"),
+)
+
+
+# =================================================================================================
+# TaskGraph.get_releasable_tasks (C18: exactly the not-yet-released tasks whose every parent is complete)
+# =================================================================================================
+def releasable_state(s):
+    return z3.Or(s == VIRTUAL, s == SCHEDULED, s == PREEMPTED)
+
+
+def releasable_now(h, g, x):
+    return z3.And(releasable_state(task_state(h, x)), all_parents_complete(h, g, x))
+
+
+def _grt_inv(c, L):
+    g = c.arg("self")
+    h = c.post
+    out = L.var("tasks_to_be_released")
+    d = g_children(c.pre, g)
+    pg = g_parents(c.pre, g)
+    x = z3.Int(H.fresh_name("gr_x"))
+    k = z3.Int(H.fresh_name("gr_k"))
+    key = lambda j: c.pre.d_key(Adj, d, j)
+    return {
+        "list_fresh": z3.And(out >= c.alloc0, out < c.run.cur_alloc()),
+        "states_untouched": h.fld_arr(TASK, "_state")[2] == c.pre.fld_arr(TASK, "_state")[2],
+        "parent_graph_stable": _pg_stable(c, h),
+        "new_parent_entries_empty": z3.ForAll(
+            [x], z3.Implies(z3.And(h.d_dom(Adj, pg, x), z3.Not(c.pre.d_dom(Adj, pg, x))), z3.And(h.c_len(TaskList, h.d_val(Adj, pg, x)) == 0, h.d_val(Adj, pg, x) >= c.alloc0, h.d_val(Adj, pg, x) != out)), patterns=[h.d_val(Adj, pg, x)]
+        ),
+        # soundness: only graph nodes that are releasable now are collected
+        "only_releasable": z3.ForAll([x], z3.Implies(h.l_mem(TaskList, out, x), z3.And(c.pre.d_dom(Adj, d, x), releasable_now(c.pre, g, x))), patterns=[h.l_mem(TaskList, out, x)]),
+        # completeness: no releasable node seen so far is missing (nothing is starved)
+        "every_releasable_so_far": z3.ForAll([k], z3.Implies(z3.And(0 <= k, k < L.i, k < c.pre.c_len(Adj, d), releasable_now(c.pre, g, key(k))), h.l_mem(TaskList, out, key(k))), patterns=[key(k)]),
+    }
+
+
+def _grt_mod(c):
+    g = c.arg("self")
+    out = _adj_mod(c, g_parents(c.pre, g))
+    fr = c.run.frames[-1].env
+    lst = fr.get("tasks_to_be_released")
+    out[c.pre.carr(TaskList, "len")[0]] = [lst.z]
+    out[c.pre.carr(TaskList, "elem")[0]] = [lst.z]
+    return out
+
+
+def _grt_lemmas(c, L, phase):
+    if phase in ("start", "end"):
+        return [_parents_bridge(c, L.var("task"))]
+    return []
+
+
+def _grt_ens(c):
+    g = c.arg("self")
+    d = g_children(c.pre, g)
+    x = z3.Int(H.fresh_name("ge_x"))
+    k = z3.Int(H.fresh_name("ge_k"))
+    key = lambda j: c.pre.d_key(Adj, d, j)
+    return {
+        "releasable.only": z3.ForAll([x], z3.Implies(c.post.l_mem(TaskList, c.res, x), z3.And(c.pre.d_dom(Adj, d, x), releasable_now(c.pre, g, x))), patterns=[c.post.l_mem(TaskList, c.res, x)]),
+        "releasable.none_starved": z3.ForAll([k], z3.Implies(z3.And(0 <= k, k < c.pre.c_len(Adj, d), releasable_now(c.pre, g, key(k))), c.post.l_mem(TaskList, c.res, key(k))), patterns=[key(k)]),
+        "releasable.states_untouched": c.post.fld_arr(TASK, "_state")[2] == c.pre.fld_arr(TASK, "_state")[2],
+    }
+
+
+Contract(
+    "workload.tasks.TaskGraph.get_releasable_tasks",
+    params={"self": TGR},
+    ret=TaskList,
+    requires=lambda c: {"maps_distinct": g_children(c.pre, c.arg("self")) != g_parents(c.pre, c.arg("self"))},
+    modifies=lambda c: _adj_mod(c, g_parents(c.pre, c.arg("self"))),
+    loops={0: Loop(inv=_grt_inv, modifies=_grt_mod, lemmas=_grt_lemmas)},
+    locals={"tasks_to_be_released": TaskList},
+    entry_facts=lambda c: [closed_graph(c, c.arg("self"))],
+    ensures=_grt_ens,
+    allocates=True,
+    note="the only heap effect is the defaultdict entry created for a parentless node",
+    props=("C18", "C02"),
 )
